@@ -223,6 +223,7 @@ def check_call(rec, coll, case, p, s, call, tag="collocate"):
         rec.count("collocate.swapped")
     if P["time"].size * S["time"].size > 1000000:
         rec.count("collocate.binned_path")
+    snap = [(d, {v: d[v].values.copy() for v in d.variables}) for d in (dsP, dsS)]
     try:
         res = coll.collocate(a1, a2, **kw)
     except Exception as exc:
@@ -230,6 +231,18 @@ def check_call(rec, coll, case, p, s, call, tag="collocate"):
         rec.violation(key, sub, {"exception": repr(exc), "trace": traceback.format_exc()[-1500:],
                                  "expected_pairs": len(must)})
         return
+    # the caller's datasets must come back untouched (they are collocated again in histories and by
+    # collocate_filesets, where one secondary serves several primaries)
+    for d, before in snap:
+        for v, arr in before.items():
+            now = d[v].values if v in d.variables else None
+            same = now is not None and now.shape == arr.shape and (
+                np.array_equal(now, arr, equal_nan=True) if arr.dtype.kind in "fc"
+                else np.array_equal(now, arr))
+            if not same:
+                rec.violation("collocate-mutates-input", sub, {"variable": str(v)})
+                return
+    rec.count("collocate.inputs_unchanged")
     if not must and not may:
         rec.count("collocate.none_expected")
     if res is None:
